@@ -226,6 +226,18 @@ def r11_2(rep, M, rid, obj, br):
                           "MatIDError", M.where(FQ, exact[0]))
         elif len(tol) >= 3:
             rep.ok(rid, "the axis scan compares all three entries of a row with a tolerance (no exact zero test on floating-point entries)")
+            # ... and compares their magnitudes: spglib returns -1 as readily as +1 for the non-periodic axis (it depends on the orientation of the
+            # basis it is given, e.g. of a cluster's prototype cell)
+            def magnitude(e):
+                return isinstance(e, ast.Call) and ((isinstance(e.func, ast.Name) and e.func.id == "abs")
+                                                    or (M.ext_name(FQ, e.func) or "") in ("numpy.abs", "numpy.absolute", "numpy.fabs", "math.fabs"))
+            signed = [x for x in tol if not any(magnitude(side) for side in [x.left] + x.comparators)]
+            if signed:
+                rep.violation(rid, f"2D branch: `{norm(signed[0])[:60]}` in the axis scan", "a signed entry of spglib's transformation matrix is compared with a positive "
+                              "tolerance: the entry of the non-periodic axis is -1 for about every other basis orientation (prototype cells of clusters, relabelled or "
+                              "flipped sheets), the axis is then not found and get_conventional_system raises MatIDError", M.where(FQ, signed[0]))
+            else:
+                rep.ok(rid, "the axis scan compares the magnitudes of the entries")
         else:
             raise AnalysisError("2D branch: tolerance tests of the axis scan not recognised")
     raised = any(isinstance(t, ast.If) and idx and idx in norm(t.test) and "None" in norm(t.test) and any(isinstance(x, ast.Raise) for x in t.body)
